@@ -4,14 +4,15 @@ A call tree is a JSON-able dict per node:
   k   : 'plain' | 'dnc' | 'unspec' | 'ctx' | 'fs' | 'conv' | 'iconv'
   st  : 'U'|'E'|'D'                      (ctx)     status of the new ControlStatusCtx
   ur  : bool                             (fs, conv, iconv)  user_requested
-  c   : 'null' | 'current' | ['obj', k]  (conv, iconv)      conversion_ctx / ctx : NullCtx(), control_status_ctx() at the
-                                                             moment of wrapping, or the shared object SHARED[k]
+  c   : 'null' | 'current' | 'default' | ['obj', k]  (conv, iconv)   conversion_ctx / ctx : NullCtx(), control_status_ctx() at
+        the moment of wrapping, the thread's default context captured by the runner outside every region, or the
+        shared object SHARED[k] (created elsewhere, never on the list otherwise)
   cbd : bool                             (iconv)   convert_by_default
   rec : bool                             (conv, fs via tograph)  recursive
   feat: None | 'NAME_SCOPES' | 'AUTO_CONTROL_DEPS' | 'ALL' | 'LISTS+NAME_SCOPES'   (conv, fs)  optional features of the
         conversion options; each of these makes FunctionScope refuse the options (AssertionError "... not supported")
   via : which real API realises the kind (see `callable_for`)
-  v   : 'for' | 'while' | 'meth' | 'partial' | 'callable'   which body of c16_bodies is wrapped (function, bound method,
+  v   : 'for' | 'while' | 'meth' | 'partial' | 'callable' | 'localdef' | 'locallambda' | 'twolevel' | 'localclass' | 'gen' | 'genmeth'   which body of c16_bodies is wrapped (function, bound method,
         functools.partial of a function, callable object)
   take: None | int   (generator callees, v in gen / genmeth) the consumer resumes the generator only `take` times and then
         keeps it suspended until the end of the thread; such trees are judged by the direct oracle only
@@ -24,6 +25,8 @@ import functools, inspect, re, sys, threading, time
 import c16_bodies as B
 
 STATUS_LETTERS = 'UED'
+# body variants that are plain functions (to_graph takes them as they are)
+PLAIN_FUNCTION_VARIANTS = ('for', 'while', 'localdef', 'locallambda', 'twolevel', 'localclass')
 N_SHARED = 6
 
 
@@ -48,7 +51,9 @@ class _Malt(object):
                      for ur in (False, True) for ft, fv in self.feats.items()}
         self.bodies = {'for': B.body_for, 'while': B.body_while, 'meth': B.HOLDER.body_meth,
                        'partial': functools.partial(B.body_for), 'callable': B.CALLABLE,
-                       'gen': B.gbody_for, 'genmeth': B.HOLDER.gbody_meth}
+                       'gen': B.gbody_for, 'genmeth': B.HOLDER.gbody_meth,
+                       'localdef': B.body_localdef, 'locallambda': B.body_locallambda, 'twolevel': B.body_twolevel,
+                       'localclass': B.body_localclass}
         self.lock = threading.Lock()
         self.table = {}
         for name in ('obs', 'kids', 'step', 'last', 'handle', 'handle_refusal', 'drive', 'nkids', 'kid', 'kid_id', 'run_native', 'new_ctx', 'inner'):
@@ -65,6 +70,8 @@ class _Malt(object):
             return self.ag_ctx.NullCtx()
         if c == 'current':
             return self.ag_ctx.control_status_ctx()
+        if c == 'default':
+            return env_default()          # the thread's default context, captured by the runner before anything was entered
         return self.shared[c[1]]
 
     # ------------------------------------------------------------------ node -> real callable (env, path) -> None
@@ -84,10 +91,10 @@ class _Malt(object):
             ur, rec, c = nd['ur'], nd.get('rec', True), nd['c']
             feats = self.feats[nd.get('feat')]
             conv = malt.convert if nd.get('via') == 'malt' else api.convert
-            if c == 'current':
+            if c in ('current', 'default'):
                 def conv_current(env, p):
                     return conv(recursive=rec, optional_features=feats, user_requested=ur,
-                                conversion_ctx=ag_ctx.control_status_ctx())(body)(env, p)
+                                conversion_ctx=self.ctx_arg(c))(body)(env, p)
                 return api.autograph_artifact(conv_current)
             key = ('conv', v, ur, rec, c if c == 'null' else c[1], nd.get('via'), nd.get('feat'))
             return self.cached(key, lambda: conv(recursive=rec, optional_features=feats, user_requested=ur,
@@ -129,6 +136,13 @@ class _Malt(object):
         raise ValueError('unknown kind %r' % (k,))
 
 
+_TLS = threading.local()
+
+
+def env_default():
+    return _TLS.env.default
+
+
 _M = None
 _M_LOCK = threading.Lock()
 
@@ -141,7 +155,8 @@ def M():
     return _M
 
 
-BODY_NAMES = ('body_for', 'body_while', 'body_meth', '__call__', 'gbody_for', 'gbody_meth')
+BODY_NAMES = ('body_for', 'body_while', 'body_meth', '__call__', 'gbody_for', 'gbody_meth',
+              'body_localdef', 'body_locallambda', 'body_twolevel', 'body_localclass')
 
 
 def observer_is_converted(frame):
@@ -299,6 +314,7 @@ class Env(object):
             if self.gate is not None:
                 self.gate.wait_turn(self.tid)
             self.default = ag_ctx.control_status_ctx()
+            _TLS.env = self
             root = self.m.callable_for(self.tree)
             self.obs((), 'start')
             try:
@@ -428,6 +444,51 @@ def is_gen(nd):
     return nd.get('v') in ('gen', 'genmeth')
 
 
+def captured(c, parent):
+    """(id, status) of the context object a `conversion_ctx=` / `ctx=` argument denotes; `parent` = (id, status) current
+    in the caller's body."""
+    if c in ('null', 'current'):
+        return parent
+    if c == 'default':
+        return ('D', 'U')
+    return ('S%d' % c[1], STATUS_LETTERS[c[1] % 3])
+
+
+def expected_inside(nd, parent):
+    """What the documented contract of the wrappers fixes about the context *object and status* the wrapped function's
+    body sees, given (id, status) current in the caller: ('same', id, st) = that very object, ('fresh', st) = an object
+    of its own with that status, None = nothing fixed here.  `convert(conversion_ctx=c)` runs f "in the context c";
+    `internal_convert(f, ctx, …)` applies do_not_convert / convert(conversion_ctx=ctx) / the unspecified wrapper
+    according to ctx.status and convert_by_default."""
+    k = nd['k']
+    if is_gen(nd) or parent is None:
+        return None
+
+    def conv(ur, c, feat):
+        cap = captured(c, parent)
+        if cap[1] == 'D':
+            return ('same',) + cap                   # conversion disabled there: f runs as it is, in that context
+        if feat:
+            return None                              # the function scope refuses: the body does not run
+        return ('fresh', 'E') if ur else ('same',) + cap
+    if k == 'dnc':
+        return ('fresh', 'D')
+    if k == 'unspec':
+        return ('fresh', 'U')
+    if k == 'ctx' and nd.get('via') == 'helper':
+        return ('fresh', nd['st'])
+    if k == 'conv':
+        return conv(nd['ur'], nd['c'], nd.get('feat'))
+    if k == 'iconv':
+        cap = captured(nd['c'], parent)
+        if cap[1] == 'D':
+            return ('fresh', 'D')
+        if cap[1] == 'E' or nd['cbd']:
+            return conv(nd['ur'], nd['c'], None)
+        return ('fresh', 'U')
+    return None
+
+
 def required_status(nd, outer):
     """What the property's text fixes about the status inside a node (None: nothing)."""
     k = nd['k']
@@ -439,7 +500,7 @@ def required_status(nd, outer):
         return 'E'
     if k == 'conv' and nd['ur']:
         c = nd['c']
-        eff = outer if c in ('null', 'current') else STATUS_LETTERS[c[1] % 3]
+        eff = captured(c, (None, outer))[1]
         return 'E' if eff != 'D' else None
     return None
 
@@ -483,6 +544,15 @@ def oracle(env, clog):
             continue
         parent = by_owner.get(owner[:-1])
         outer = parent[0][2] if parent else None
+        exp = expected_inside(nd, (parent[0][1], parent[0][2]) if parent else None)
+        if exp is not None:
+            got = (obs[0][1], obs[0][2])
+            if exp[0] == 'same' and got != (exp[1], exp[2]):
+                probs.append('%s node %s (ctx argument %s): its body must run in the context object %s/%s, but sees %s/%s' % (
+                    nd['k'], list(owner), nd.get('c'), exp[1], exp[2], got[0], got[1]))
+            elif exp[0] == 'fresh' and (got[1] != exp[1] or not got[0].startswith('F') or (parent and got[0] == parent[0][1])):
+                probs.append('%s node %s (ctx argument %s): its body must see a context of its own with status %s, but sees %s/%s' % (
+                    nd['k'], list(owner), nd.get('c'), exp[1], got[0], got[1]))
         want = required_status(nd, outer)
         if want is not None and obs[0][2] != want:
             probs.append('status inside %s node %s is %s, must be %s' % (nd['k'], list(owner), obs[0][2], want))
@@ -501,7 +571,7 @@ def oracle(env, clog):
 def fs_realisation(nd):
     """How an 'fs' node is realised (the same decision as in `callable_for`)."""
     ur, via, v = nd['ur'], nd.get('via', 'scope'), nd.get('v', 'for')
-    if via == 'tograph' and ur and v in ('for', 'while'):
+    if via == 'tograph' and ur and v in PLAIN_FUNCTION_VARIANTS:
         return 'tograph'
     if via == 'tograph_lam' and ur:
         return 'tograph_lam'
@@ -534,6 +604,8 @@ def kind_sexp(nd):
     def cref(c):
         if c in ('null', 'current'):
             return c
+        if c == 'default':
+            return ['obj', 'd', 'U']
         return ['obj', ['s', c[1]], STATUS_LETTERS[c[1] % 3]]
     if k == 'conv':
         return ['conv', bool(nd['ur']), bool(nd.get('rec', True)), nd.get('feat') is not None, cref(nd['c'])]
